@@ -69,7 +69,7 @@ Qed.
 (* one full-size block over the window *)
 Definition FWFu (c : cfg) (a : afile) : Prop :=
   f_index a = [(wlo c (f_ms a), 0)] /\ zlen (f_data a) = whi c (f_ms a) - wlo c (f_ms a) /\
-  (exists K0, f_ms a = Fk c K0).
+  (exists K0, 0 <= K0 /\ f_ms a = Fk c K0).
 
 Record InvU (c : cfg) (st : wstate) : Prop := mkInvU {
   invu_nf : w_failed st = false;
@@ -116,6 +116,9 @@ Lemma step_u c st g vec sw :
     write_samples_to_file c st sw [(g, 0)] vec = (Wrote stw, st') /\ 0 < stw /\
     InvU c st' /\ w_gi st' = g + sw + stw /\
     (forall a, In a (all_files st') -> (exists a0, In a0 (all_files st) /\ f_ms a0 = f_ms a) \/ f_ms a = F) /\
+    (map f_ms (all_files st') = map f_ms (all_files st) \/
+     (map f_ms (all_files st') = map f_ms (all_files st) ++ [F] /\
+      Forall (fun a => whi c (f_ms a) <= K) (all_files st))) /\
     forall k, lookup_st st' k =
       if (K <=? k) && (k <? K + stw) then nth_error (slice vec sw stw) (Z.to_nat (k - K))
       else match lookup_st st k with
@@ -151,7 +154,7 @@ Proof.
     cbn [w_di w_nia w_gi w_cur w_seq w_failed w_files w_openf].
     rewrite Hnia. cbn [Z.eqb map app rev].
     assert (Hdl : K - wlo c F + zlen (slice vec sw stw) <= zlen (f_data a)) by (rewrite Hnew, Hlen, Hms; unfold stw; lia).
-    eexists. split; [reflexivity|]. split; [exact Hstw|]. split; [|split; [|split]].
+    eexists. split; [reflexivity|]. split; [exact Hstw|]. split; [|split; [|split; [|split]]].
     + constructor; cbn [w_failed w_files w_openf w_cur w_di w_nia w_gi].
       * exact Hnf.
       * eapply Forall_impl; [|exact Hfiles]. intros x (Hx1 & Hx2). split; [exact Hx1|lia].
@@ -168,6 +171,7 @@ Proof.
       apply in_app_or in Hin as [Hin|Hin].
       * left. exists x. split; [apply in_or_app; left; exact Hin|reflexivity].
       * destruct Hin as [<-|[]]. left. exists a. split; [apply in_or_app; right; left; reflexivity|reflexivity].
+    + left. unfold all_files. cbn [w_files w_openf]. rewrite Eopen. rewrite !map_app. reflexivity.
     + intros k. unfold lookup_st, all_files. cbn [w_files w_openf]. rewrite Eopen.
       rewrite !files_lookup_app.
       assert (Hfa' : FWFu c {| f_ms := f_ms a; f_tmp := true; f_index := f_index a ++ [];
@@ -202,7 +206,7 @@ Proof.
         assert (Hne : f_ms a <> F).
         { unfold fe in Efe. rewrite Hcur in Efe. unfold w_open in Efe. rewrite Eopen in Efe.
           rewrite andb_true_r in Efe. apply Z.eqb_neq in Efe. exact Efe. }
-        destruct Hfwf as (Hidx & Hlen & (K0 & HK0)).
+        destruct Hfwf as (Hidx & Hlen & (K0 & HK0n & HK0)).
         assert (HwK : whi c (f_ms a) <= K).
         { destruct (Z_lt_le_dec K (whi c (f_ms a))) as [Hlt|Hge]; [|exact Hge].
           exfalso. apply Hne. rewrite HK0. symmetry. apply (Fk_same c K0 K Hc). rewrite <- HK0. unfold K in *. lia. }
@@ -210,9 +214,9 @@ Proof.
         apply Forall_app. split.
         + eapply Forall_impl; [|exact Hbelow]. intros x (Hx1 & Hx2). split; [exact Hx1|].
           pose proof (Fk_window c K0 Hc) as W0. rewrite <- HK0 in W0. lia.
-        + constructor; [|constructor]. split; [exact (conj Hidx (conj Hlen (ex_intro _ K0 HK0)))|exact Hwa].
-      - eapply Forall_impl; [|exact Hfiles]. intros x ((Hx1 & Hx2 & (K0 & HK0)) & Hx3).
-        split; [exact (conj Hx1 (conj Hx2 (ex_intro _ K0 HK0)))|].
+        + constructor; [|constructor]. split; [exact (conj Hidx (conj Hlen (ex_intro _ K0 (conj HK0n HK0))))|exact Hwa].
+      - eapply Forall_impl; [|exact Hfiles]. intros x ((Hx1 & Hx2 & (K0 & HK0n & HK0)) & Hx3).
+        split; [exact (conj Hx1 (conj Hx2 (ex_intro _ K0 (conj HK0n HK0))))|].
         rewrite HK0 in *. apply window_after; [assumption|unfold K; lia]. }
     assert (Hnofinal : has_final F (finalize st) = false).
     { apply has_final_false. eapply Forall_impl; [|exact Hfin]. intros x (_ & Hx) E. rewrite E in Hx. lia. }
@@ -221,7 +225,7 @@ Proof.
     set (cap := whi c F - wlo c F).
     assert (Hcap0 : zlen (repeat Fill (Z.to_nat cap)) = cap) by (unfold zlen; rewrite repeat_length, Z2Nat.id; unfold cap; lia).
     assert (Hdl : K - wlo c F + zlen (slice vec sw stw) <= zlen (repeat Fill (Z.to_nat cap))) by (rewrite Hnew, Hcap0; unfold cap, stw; lia).
-    eexists. split; [reflexivity|]. split; [exact Hstw|]. split; [|split; [|split]].
+    eexists. split; [reflexivity|]. split; [exact Hstw|]. split; [|split; [|split; [|split]]].
     + constructor; cbn [w_failed w_files w_openf w_cur w_di w_nia w_gi].
       * exact Hnf.
       * eapply Forall_impl; [|exact Hfin]. intros x (Hx1 & Hx2). split; [exact Hx1|lia].
@@ -229,7 +233,7 @@ Proof.
         -- split; [|split]; cbn [f_index f_data f_ms app].
            ++ reflexivity.
            ++ rewrite overwrite_length by lia. exact Hcap0.
-           ++ exists K. reflexivity.
+           ++ exists K. split; [unfold K; destruct Hc as (_ & _ & _ & Hs0); lia|reflexivity].
         -- reflexivity.
         -- cbn [f_ms]. unfold stw. lia.
         -- exact Hfin.
@@ -242,6 +246,16 @@ Proof.
            ++ destruct Hin as [<-|[]]. exists a. split; [apply in_or_app; right; left; reflexivity|reflexivity].
         -- exists x. split; [apply in_or_app; left; exact Hin|reflexivity].
       * destruct Hin as [<-|[]]. right. reflexivity.
+    + right.
+      assert (Hms : map f_ms (finalize st) = map f_ms (all_files st) /\ Forall (fun a => whi c (f_ms a) <= K) (all_files st)).
+      { unfold finalize, all_files in *. destruct (w_openf st) as [a|].
+        - rewrite Hnf in *. rewrite !map_app. cbn [map set_final f_ms]. split; [reflexivity|].
+          apply Forall_app in Hfin as [H1 H2]. apply Forall_app. split.
+          + eapply Forall_impl; [|exact H1]. intros x (_ & Hx). lia.
+          + inversion H2 as [|? ? (_ & Hx) _]; subst. constructor; [cbn [f_ms set_final] in Hx; lia|constructor].
+        - rewrite app_nil_r. split; [reflexivity|]. eapply Forall_impl; [|exact Hfin]. intros x (_ & Hx). lia. }
+      destruct Hms as (Hms1 & Hms2). split; [|exact Hms2].
+      unfold all_files at 1. cbn [w_files w_openf]. rewrite map_app, Hms1. reflexivity.
     + intros k. unfold lookup_st, all_files. cbn [w_files w_openf].
       rewrite files_lookup_app.
       assert (Hold : files_lookup (finalize st) k = files_lookup (w_files st ++ match w_openf st with Some a => [a] | None => [] end) k).
@@ -250,7 +264,7 @@ Proof.
       assert (Hfa' : FWFu c {| f_ms := F; f_tmp := true; f_index := [(wlo c F, 0)];
                                f_data := overwrite (repeat Fill (Z.to_nat cap)) (K - wlo c F) (slice vec sw stw);
                                f_cap := cap; f_seq := w_seq st + 1 |}).
-      { split; [|split]; cbn [f_index f_data f_ms]; [reflexivity|rewrite overwrite_length by lia; exact Hcap0|exists K; reflexivity]. }
+      { split; [|split]; cbn [f_index f_data f_ms]; [reflexivity|rewrite overwrite_length by lia; exact Hcap0|exists K; split; [unfold K; destruct Hc as (_ & _ & _ & Hs0); lia|reflexivity]]. }
       rewrite (file_lookup_u c _ k Hfa'). cbn [f_ms f_data].
       destruct ((wlo c F <=? k) && (k <? whi c F)) eqn:Ew.
       * apply andb_true_iff in Ew as [E1 E2]. apply Z.leb_le in E1. apply Z.ltb_lt in E2.
@@ -342,12 +356,24 @@ Lemma step_u_rel c st g vec sw :
   let stw := Z.min (whi c (Fk c K) - K) (zlen vec - sw) in
   exists st',
     write_samples_to_file c st sw [(g, 0)] vec = (Wrote stw, st') /\ 0 < stw /\
-    InvU c st' /\ w_gi st' = g + sw + stw /\ StepRel c st st' K (K + stw) (newval_of c g vec).
+    InvU c st' /\ w_gi st' = g + sw + stw /\ StepRel c st st' K (K + stw) (newval_of c g vec) /\
+    (ms_incr (map f_ms (all_files st)) -> ms_incr (map f_ms (all_files st'))).
 Proof.
   intros Hc Hch Hco HI Hsw Hgi Hg K stw.
-  destruct (step_u c st g vec sw Hc Hch Hco HI Hsw Hgi Hg) as (st' & Hw & Hpos & HI' & Hgi' & Hfs & Hlk).
-  fold K in Hw, Hlk, Hfs. fold stw in Hw, Hpos, Hgi', Hlk.
+  destruct (step_u c st g vec sw Hc Hch Hco HI Hsw Hgi Hg) as (st' & Hw & Hpos & HI' & Hgi' & Hfs & Hms & Hlk).
+  fold K in Hw, Hlk, Hfs, Hms. fold stw in Hw, Hpos, Hgi', Hlk.
   exists st'. split; [exact Hw|]. split; [exact Hpos|]. split; [exact HI'|]. split; [exact Hgi'|].
+  split; [|
+    intros Hso; destruct Hms as [E|(E & Hall)]; rewrite E; [exact Hso|];
+    apply ms_incr_snoc; [exact Hso|]; apply Forall_map;
+    assert (HF : Forall (fun a => exists K0, 0 <= K0 /\ f_ms a = Fk c K0) (all_files st));
+    [ destruct HI as [_ Hf Ho]; unfold all_files; apply Forall_app; split;
+      [ eapply Forall_impl; [|exact Hf]; intros a ((_ & _ & H) & _); exact H
+      | destruct (w_openf st) as [a|]; [|constructor]; constructor; [|constructor];
+        destruct Ho as (_ & (_ & _ & H) & _); exact H ]
+    | clear - Hall HF Hc; induction Hall as [|a l Ha _ IHl]; [constructor|];
+      inversion HF as [|? ? (K0 & HK0 & EK0) HF']; subst; constructor; [|apply IHl; exact HF'];
+      rewrite EK0 in *; apply Fk_lt_of_below; assumption ] ].
   pose proof (Fk_window c K Hc) as HW.
   constructor.
   - intros k Hk. rewrite Hlk.
@@ -373,7 +399,8 @@ Lemma loop_u c g vec : vcfg c -> c_chunk c = false -> c_cont c = true -> 0 <= g 
   exists st',
     write_loop fuel c st sw [(g, 0)] vec = (0, st') /\ InvU c st' /\
     (sw < zlen vec -> w_gi st' = g + zlen vec) /\ (sw = zlen vec -> st' = st) /\
-    StepRel c st st' (c_start c + g + sw) (c_start c + g + zlen vec) (newval_of c g vec).
+    StepRel c st st' (c_start c + g + sw) (c_start c + g + zlen vec) (newval_of c g vec) /\
+    (ms_incr (map f_ms (all_files st)) -> ms_incr (map f_ms (all_files st'))).
 Proof.
   intros Hc Hch Hco Hg0. induction fuel as [|fuel IH]; intros st sw HI Hsw Hgi Hfuel.
   - cbn in Hfuel. lia.
@@ -381,15 +408,15 @@ Proof.
     destruct (sw <? zlen vec) eqn:El.
     + apply Z.ltb_lt in El.
       destruct (step_u_rel c st g vec sw Hc Hch Hco HI ltac:(lia) (Hgi El) Hg0)
-        as (st1 & Hstep & Hpos & HI1 & Hgi1 & Hrel1).
+        as (st1 & Hstep & Hpos & HI1 & Hgi1 & Hrel1 & Hso1).
       rewrite Hstep.
       set (K := c_start c + (g + sw)) in *.
       set (stw := Z.min (whi c (Fk c K) - K) (zlen vec - sw)) in *.
       assert (E0 : (stw =? 0) = false) by (apply Z.eqb_neq; lia). rewrite E0.
       destruct (IH st1 (sw + stw) HI1 ltac:(unfold stw; lia) ltac:(intros _; lia)
                   ltac:(rewrite Nat2Z.inj_succ in Hfuel; lia))
-        as (st2 & Hloop & HI2 & Hgi2 & Hsame & Hrel2).
-      exists st2. split; [exact Hloop|]. split; [exact HI2|]. split; [|split].
+        as (st2 & Hloop & HI2 & Hgi2 & Hsame & Hrel2 & Hso2).
+      exists st2. split; [exact Hloop|]. split; [exact HI2|]. split; [|split; [|split]].
       * intros _. destruct (Z_lt_le_dec (sw + stw) (zlen vec)) as [Hlt|Hge].
         -- apply Hgi2. exact Hlt.
         -- assert (sw + stw = zlen vec) by (unfold stw in *; lia).
@@ -400,9 +427,10 @@ Proof.
         -- intros k Hk. unfold newval_of. apply nth_error_in_range. unfold K, stw in *. lia.
         -- replace (c_start c + g + sw) with K by (unfold K; lia). exact Hrel1.
         -- replace (K + stw) with (c_start c + g + (sw + stw)) by (unfold K; lia). exact Hrel2.
+      * intros Hso. exact (Hso2 (Hso1 Hso)).
     + apply Z.ltb_ge in El. assert (E : sw = zlen vec) by lia.
       exists st. split; [reflexivity|]. split; [exact HI|]. split; [lia|]. split; [reflexivity|].
-      rewrite E. apply StepRel_refl.
+      split; [rewrite E; apply StepRel_refl|auto].
 Qed.
 
 (* ------------------------------------------------------------------ one call, histories *)
@@ -411,14 +439,15 @@ Lemma write_one_u c st g vec : vcfg c -> c_chunk c = false -> c_cont c = true ->
   if g <? w_gi st then write_one c st g vec = (-3, st)
   else exists st', write_one c st g vec = (0, st') /\ InvU c st' /\
          w_gi st' = (if zlen vec =? 0 then w_gi st else g + zlen vec) /\
-         StepRel c st st' (c_start c + g) (c_start c + g + zlen vec) (newval_of c g vec).
+         StepRel c st st' (c_start c + g) (c_start c + g + zlen vec) (newval_of c g vec) /\
+         (ms_incr (map f_ms (all_files st)) -> ms_incr (map f_ms (all_files st'))).
 Proof.
   intros Hc Hch Hco HI Hg. unfold write_one, write_blocks. rewrite (invu_nf c st HI).
   destruct (g <? w_gi st) eqn:Eg; [reflexivity|]. apply Z.ltb_ge in Eg.
   rewrite andb_false_r.
   destruct (loop_u c g vec Hc Hch Hco Hg (S (length vec)) st 0 HI ltac:(unfold zlen; lia) ltac:(lia)
-              ltac:(unfold zlen; lia)) as (st' & Hl & HI' & Hgi' & Hsame & Hrel).
-  exists st'. split; [exact Hl|]. split; [exact HI'|]. split.
+              ltac:(unfold zlen; lia)) as (st' & Hl & HI' & Hgi' & Hsame & Hrel & Hso).
+  exists st'. split; [exact Hl|]. split; [exact HI'|]. split; [|split; [|exact Hso]].
   - destruct (zlen vec =? 0) eqn:E0.
     + apply Z.eqb_eq in E0. rewrite (Hsame (eq_sym E0)). reflexivity.
     + apply Z.eqb_neq in E0. apply Hgi'. unfold zlen in *. lia.
@@ -433,18 +462,19 @@ Record refines_u (c : cfg) (st : wstate) (s : spec) : Prop := mkRefU {
   ru_cur : w_gi st = s_cur s;
   ru_written : forall k v, s_map s k = Some v -> lookup_st st k = Some v;
   ru_only : forall k v, lookup_st st k = Some v -> s_map s k = Some v \/ (s_map s k = None /\ v = Fill);
-  ru_files : forall a, In a (all_files st) -> exists k v, wlo c (f_ms a) <= k < whi c (f_ms a) /\ s_map s k = Some v
+  ru_files : forall a, In a (all_files st) -> exists k v, wlo c (f_ms a) <= k < whi c (f_ms a) /\ s_map s k = Some v;
+  ru_sorted : ms_incr (map f_ms (all_files st))
 }.
 
 Lemma refines_u_step c st s op : vcfg c -> c_chunk c = false -> c_cont c = true -> 0 <= fst op ->
   refines_u c st s -> refines_u c (model_step c st op) (spec_step c s op).
 Proof.
-  intros Hc Hch Hco Hg [HI Hgi Hwr Hon Hfs]. destruct op as [g vec]. cbn [fst snd] in *.
+  intros Hc Hch Hco Hg [HI Hgi Hwr Hon Hfs Hsorted]. destruct op as [g vec]. cbn [fst snd] in *.
   unfold model_step, spec_step. cbn [fst snd].
   pose proof (write_one_u c st g vec Hc Hch Hco HI Hg) as H. rewrite Hgi in H.
   destruct (g <? s_cur s) eqn:Eg.
   - rewrite H. cbn [snd]. constructor; assumption.
-  - destruct H as (st' & Hw & HI' & Hgi' & [R1 R2 R3 R4]). rewrite Hw. cbn [snd].
+  - destruct H as (st' & Hw & HI' & Hgi' & [R1 R2 R3 R4] & Hso'). rewrite Hw. cbn [snd].
     assert (Hrange : forall k, (c_start c + g <=? k) && (k <? c_start c + g + zlen vec) = true <->
                                c_start c + g <= k < c_start c + g + zlen vec).
     { intros k. rewrite andb_true_iff, Z.leb_le, Z.ltb_lt. tauto. }
@@ -469,6 +499,7 @@ Proof.
         -- exists k, v. split; [exact Hk|]. rewrite E. exact Hv.
       * destruct (nth_error_in_range vec (k - c_start c - g) ltac:(lia)) as (w & Hw2).
         exists k, w. split; [exact Hw'|]. apply Hrange in Hk. rewrite Hk. exact Hw2.
+    + exact (Hso' Hsorted).
 Qed.
 
 Theorem writer_refines_unchunked c ops : vcfg c -> c_chunk c = false -> c_cont c = true ->
@@ -486,6 +517,7 @@ Proof.
   - discriminate.
   - discriminate.
   - intros a [].
+  - exact I.
 Qed.
 
 (* every file of every reachable state: a single block exposing every slot of its window *)
@@ -494,7 +526,7 @@ Theorem unchunked_files_full_block c ops : vcfg c -> c_chunk c = false -> c_cont
   Forall (fun a => f_index a = [(wlo c (f_ms a), 0)] /\ zlen (f_data a) = whi c (f_ms a) - wlo c (f_ms a))
          (all_files (fold_left (model_step c) ops init_state)).
 Proof.
-  intros Hc Hch Hco Hops. destruct (writer_refines_unchunked c ops Hc Hch Hco Hops) as [[_ Hf Ho] _ _ _ _].
+  intros Hc Hch Hco Hops. destruct (writer_refines_unchunked c ops Hc Hch Hco Hops) as [[_ Hf Ho] _ _ _ _ _].
   unfold all_files. apply Forall_app. split.
   - eapply Forall_impl; [|exact Hf]. intros a ((H1 & H2 & _) & _). auto.
   - destruct (w_openf _) as [a|]; [|constructor]. constructor; [|constructor].
